@@ -81,10 +81,7 @@ def run(tier, replay):
             if r["post"][f] == r["pre"][f]:
                 lib.tool_error(f"probe {f} of kind {r['kind']} does not change in the fault-free run: observation is blind")
     observed_hyp = set()
-    step_of = {"set_db_ts_max": "ts_max", "write_db_ruv": "ruv_del", "write_db_ruv_add": "ruv_add", "write_identry": "entries",
-               "delete_identry": "entries", "write_idl": "idl", "sql_commit": "sql_commit", "none": "none",
-               "purge_idxs": "reload", "create_table": "reload", "create_idx": "reload", "store_idx_slopes": "reload",
-               "set_db_version": "reload", "post_sql_commit": "post_commit"}
+    step_of = txn_common.STEP_OF
     comp_of = {"sch": "schema", "acp": "acp", "dn": "dinfo", "oa": "oauth2"}
     for t in tv["l1fail"]:
         ln = t[2] - 1
